@@ -429,12 +429,28 @@ func checkAcceptClosed(e *Env, m *e1Model, cfns []*ssa.Function) {
 	}
 
 	// classify: is this edge the rejecting side of a listed defect class?  returns the class name or "".
+	var classifyCond func(f *ssa.Function, cond ssa.Value, pol bool, ifi ssa.Instruction, depth int) string
 	classify := func(f *ssa.Function, ed decidingEdge) string {
 		ifi, _ := flow.LastIf(ed.ifb)
-		c := flow.Norm(flow.Cond{V: ifi.Cond, Pol: ed.arm})
+		return classifyCond(f, ifi.Cond, ed.arm, ifi, 0)
+	}
+	classifyCond = func(f *ssa.Function, cond ssa.Value, pol bool, ifi ssa.Instruction, depth int) string {
+		c := flow.Norm(flow.Cond{V: cond, Pol: pol})
 		patcher := isPatcher(f)
+		// a boolean helper of the module with one return (`info.implemented()`, `len(i.SyscallNames) > 0`): the class of the
+		// expression it returns, read in the helper
+		if hc, ok := c.V.(*ssa.Call); ok && depth < 3 {
+			if h := hc.Call.StaticCallee(); inModule(h) && len(h.Blocks) == 1 && h.Signature.Results().Len() == 1 &&
+				types.Identical(h.Signature.Results().At(0).Type().Underlying(), types.Typ[types.Bool]) {
+				if rets := flow.Returns(h); len(rets) == 1 {
+					if cl := classifyCond(h, flow.RetResults(rets[0])[0], c.Pol, rets[0], depth+1); cl != "" {
+						return cl
+					}
+				}
+			}
+		}
 		// len(x) <op> k
-		if arg, pr, ok := flow.LenPred(ifi.Cond, ed.arm); ok {
+		if arg, pr, ok := flow.LenPred(cond, pol); ok {
 			t := arg.Type()
 			switch u := t.Underlying().(type) {
 			case *types.Slice:
@@ -538,7 +554,7 @@ func checkAcceptClosed(e *Env, m *e1Model, cfns []*ssa.Function) {
 				}
 			}
 			// integer comparisons with a constant
-			if pr, ok := flow.AsIntPred(ifi.Cond, ed.arm); ok {
+			if pr, ok := flow.AsIntPred(cond, pol); ok {
 				o := res.Of(flow.StripConv(pr.X), nil, ifi)
 				if o.Kind == origin.KField && o.Field.Name() == "Argument" {
 					return "argument-index" // the exact bound is E3.reject-inventory …/argument-index
